@@ -156,7 +156,7 @@ def envelope(draw, lo, hi, narrow):
     }
 
 
-sample_name = st.one_of(st.binary(max_size=22), st.binary(max_size=22), vs.bytes_with_magic(22)).map(lambda b: b.rstrip(b"\0")).map(lambda b: b.hex())
+sample_name = st.one_of(st.binary(max_size=22), st.binary(max_size=22), vs.bytes_with_magic(22), st.binary(max_size=18).map(lambda b: b + b"  "), st.sampled_from([b" ", b"a ", b"\t", b" x", b"name\n"])).map(lambda b: b.rstrip(b"\0")).map(lambda b: b.hex())
 
 
 @st.composite
@@ -189,6 +189,9 @@ def sampler_payload(draw, depth):
         free = [i for i in (3, 5, 64, 125, 127, 0) if i not in slots]
         k = draw(st.integers(1, 2))
         p["sample_aliases"] = [[free[j], draw(st.sampled_from(sorted(slots)))] for j in range(min(k, len(free)))]
+    # now and then one sample is long (chunk payloads of 64 KiB and of more than 1 MiB)
+    if p["samples"] and draw(st.integers(0, 11)) == 0:
+        p["samples"][0][1]["data_big"] = draw(st.sampled_from([65535, 65536, 70001, (1 << 20) + 17]))
     env = {}
     which = draw(st.lists(st.sampled_from(["volume", "panning", "pitch", "fx0", "fx1", "fx2", "fx3"]), max_size=3, unique=True))
     for w in which:
@@ -202,7 +205,9 @@ def sampler_payload(draw, depth):
             env[w] = draw(envelope(0, 0x8000, False))
     p["envelopes"] = env
     if draw(st.booleans()):
-        p["note_map"] = draw(st.one_of(st.lists(u8, min_size=119, max_size=119), u8.map(lambda v: [v] * 119), vs.bytes_with_magic(119).map(lambda b: list(b.ljust(119, b"\0")))))
+        special = st.sampled_from([0x20, 0x00, 0x09, 0x0A, 0x0D, 0xFF, 0x7F, 0x80])
+        tail = st.tuples(st.lists(u8, min_size=119, max_size=119), st.integers(1, 119), special).map(lambda t: t[0][: 119 - t[1]] + [t[2]] * t[1])
+        p["note_map"] = draw(st.one_of(st.lists(u8, min_size=119, max_size=119), u8.map(lambda v: [v] * 119), special.map(lambda v: [v] * 119), tail, vs.bytes_with_magic(119).map(lambda b: list(b.ljust(119, b"\0")))))
     fields = {
         "vibrato_type": st.sampled_from(["sin", "saw", "square"]),
         "vibrato_attack": u8,
@@ -259,7 +264,7 @@ def metamodule_payload(draw, depth):
     p["mappings"] = maps
     kl = draw(st.integers(0, min(n, 4)))
     lidx = draw(st.lists(st.integers(0, max(0, n - 1)), min_size=kl, max_size=kl, unique=True)) if n else []
-    p["labels"] = [[i, draw(st.one_of(vs.text_no_nul(12), vs.text_no_nul(12), st.sampled_from(["cutoff", "res", "mix", "vol", "depth", "rate"]), vs.long_text()))] for i in lidx]
+    p["labels"] = [[i, draw(st.one_of(vs.text_no_nul(12), vs.text_no_nul(12), st.sampled_from(["cutoff", "res", "mix", "vol", "depth", "rate"]), vs.long_text(), st.sampled_from(["User Defined %d" % (i + 1), "User Defined %d" % (i + 2), "user defined %d" % (i + 1)])))] for i in lidx]
     kc = draw(st.integers(0, min(n, 3)))
     cidx = draw(st.lists(st.integers(0, max(0, n - 1)), min_size=kc, max_size=kc, unique=True)) if n else []
     p["user_cmid"] = [[i] + draw(cmid_entry) for i in cidx]
@@ -312,9 +317,12 @@ def module_spec(draw, in_project=True, depth=1, types=None, tname=None, dense=Fa
             pool = [t for t in pool if t not in ("MetaModule",)] or LIGHT_TYPES
         tname = draw(st.sampled_from(pool))
     mt = spec[tname]
+    common = draw(common_fields(in_project))
+    if draw(st.integers(0, 9)) == 0:
+        common["name"] = draw(st.sampled_from([mt.mtype, mt.cls_name, mt.mtype.lower(), "Output", mt.mtype + " ", ""]))
     ms = {
         "type": tname,
-        "common": draw(common_fields(in_project)),
+        "common": common,
         "sets": draw(controller_sets(mt, dense=dense)),
         "options": draw(option_sets(mt)),
         "cmid": draw(cmid_sets(mt)),
@@ -440,6 +448,29 @@ def project_spec(draw, depth=1, max_modules=6, max_patterns=3, light=False, type
         links.append([draw(st.sampled_from(["c", "c", "c", "d"])), a, b])
     out = {"modules": mods, "patterns": pats, "fields": draw(st.fixed_dictionaries({}, optional=PROJECT_FIELD_STRATS)), "links": links}
     # the version the file is written as is the user's choice too (old versions have 8-bit module columns in patterns)
+    # macro MultiCtls made with the helper for controllers of the modules above (name given or left out)
+    if nm and draw(st.integers(0, 5)) == 0:
+        spec_ = specmodel.load()
+        macros = []
+        for _ in range(draw(st.integers(1, 2))):
+            idxs = draw(st.lists(st.integers(1, nm), min_size=1, max_size=min(3, nm), unique=True))
+            pairs = []
+            for mi in idxs:
+                ctls = spec_[mods[mi - 1]["type"]].controllers
+                if ctls:
+                    pairs.append([mi, draw(st.integers(0, len(ctls) - 1))])
+            if pairs:
+                macros.append({"targets": pairs, "name": draw(st.one_of(st.none(), vs.name_text(12))), "initial": draw(st.one_of(st.none(), vs.edge_int(0, 32768)))})
+        if macros:
+            out["macros"] = macros
+    # chains of pattern clones: a clone of a clone of ... of a pattern or of an empty position
+    if draw(st.integers(0, 7)) == 0:
+        k = draw(st.integers(1, 4))
+        first = draw(st.sampled_from([0, 0, 1]))
+        chain = [None if first == 0 else draw(_pattern_spec(4, 3))]
+        for j in range(k):
+            chain.append({"kind": "clone", "source": len(pats) + j, "flags_PFFF": draw(vs.u32(extra=(1,))), "x": draw(vs.i32()), "y": draw(vs.i32())})
+        out["patterns"] = pats + chain
     # empty module positions attached after the last module (they vanish when the file is loaded)
     te = draw(st.sampled_from([0, 0, 0, 1, 2]))
     if te:
@@ -481,6 +512,9 @@ def apply_envelope(env, d):
 def make_sample(cls, d):
     s = cls.Sample()
     s.data = bytes.fromhex(d["data"])
+    if d.get("data_big"):
+        n = d["data_big"]
+        s.data = (bytes.fromhex(d["data"]) + bytes(range(256)) * (n // 256 + 1))[:n]
     s.format = getattr(cls.Format, d["format"])
     s.channels = getattr(cls.Channels, d["channels"])
     s.loop_type = getattr(cls.LoopType, d["loop_type"])
@@ -678,7 +712,33 @@ def fill_project(p, spec, defer_links=False):
             p += pat
     if not defer_links:
         apply_links(p, spec)
+        apply_macros(p, spec)
     return p
+
+
+def apply_macros(p, spec):
+    """MultiCtl.macro for the listed (module position, controller ordinal) targets; a macro the helper
+    refuses (for example because an assigned unit changed what a target accepts) is simply not made."""
+    from rv.api import m
+
+    for mc in spec.get("macros", []):
+        pairs = []
+        for mi, ci in mc["targets"]:
+            if mi < len(p.modules) and p.modules[mi] is not None:
+                names = list(p.modules[mi].controllers)
+                if ci < len(names) and p.modules[mi].controllers[names[ci]].attached(p.modules[mi]):
+                    pairs.append((p.modules[mi], names[ci]))
+        if not pairs:
+            continue
+        kw = {}
+        if mc.get("name") is not None:
+            kw["name"] = mc["name"]
+        if mc.get("initial") is not None:
+            kw["initial"] = mc["initial"]
+        try:
+            m.MultiCtl.macro(p, *pairs, **kw)
+        except Exception:  # noqa: BLE001 - C20 decides what the helper must accept; here it only builds projects
+            pass
 
 
 def apply_links(p, spec):
@@ -726,6 +786,7 @@ def make_project(spec):
     for ms in spec.get("extra_modules", []):
         p.attach_module(make_module(ms))
     apply_links(p, spec)
+    apply_macros(p, spec)
     return p
 
 
@@ -892,3 +953,15 @@ def failed_save_in_past(container, k=0):
     if failed is None:
         return None
     return "%s.%s <- %r: save failed with %s, value restored" % (type(obj).__name__, attr, bad, failed)
+
+
+def big_payload_module_specs():
+    """Module recipes whose file chunks are large: a Sampler with a sample of 64 KiB / just over
+    1 MiB, a VorbisPlayer with more than 1 MiB of data (deterministic; used once per run)."""
+    base = {"common": {}, "sets": [], "options": [], "cmid": []}
+    smp = {"data": "00ff", "format": "int16", "channels": "stereo", "rate": 44100, "loop_start": 0, "loop_len": 0, "loop_type": "off", "loop_sustain": False, "volume": 64, "finetune": 0, "panning": 0, "relative_note": 0, "reserved2": 0, "start_pos": 0, "name": ""}
+    out = []
+    for n in (65536, (1 << 20) + 17):
+        out.append(dict(base, type="Sampler", payload={"samples": [[0, dict(smp, data_big=n)], [5, dict(smp)]], "envelopes": {}, "fields": {}}))
+    out.append(dict(base, type="VorbisPlayer", payload={"data": (bytes(range(251)) * 4300).hex()}))
+    return out
